@@ -1,6 +1,8 @@
 ------------------------- MODULE SuffixIndexTraceFmd -------------------------
 (* Trace validation for family "fmd" (C06).                                  *)
-(* run.cfg = [seqs, k]: one FMD index over text = concat(s $ revcomp(s) $).   *)
+(* run.cfg = [seqs, k, tab]: one FMD index over text = concat(s $ revcomp(s) $);*)
+(* tab = which alphabet less/Occ were built from (0 n_alphabet, 1 "$ACGTN",    *)
+(* 2 "ACGTN"; the reduced ones only with upper-case sequences/patterns).       *)
 (* Events (intervals are <<lower, upper>>; fp / rp = the forward / revcomp    *)
 (* interval mapped through the suffix array by the harness):                  *)
 (*   build     {}      -> text          = FmdText(seqs) (the harness used      *)
@@ -14,7 +16,10 @@
 (*             init_interval() (start = -1) or init_interval_with(start):      *)
 (*             ops[j] = <<dir, c>>, dir 0 = backward_ext, 1 = forward_ext;     *)
 (*             ivs[j] must be the bi-interval of the string built so far       *)
-(*             (size 0 iff it does not occur; the chain stops there)           *)
+(*             (size 0 iff it does not occur).  The chain goes on past empty   *)
+(*             intervals: the extension of an empty bi-interval is the empty   *)
+(*             bi-interval of the extended string -- the property fixes its    *)
+(*             size (0), not its bounds.                                       *)
 (* Result order is free; only sets are compared.                              *)
 EXTENDS SuffixIndex, Json, IOUtils
 
@@ -39,27 +44,28 @@ ExtPathOK(a, ivs, t) ==
         nops == Len(a.ops)
     IN  /\ a.start = -1 \/ a.start \in DnaN
         /\ \A j \in 1..nops : a.ops[j][1] \in {0, 1} /\ a.ops[j][2] \in DnaN
-        /\ Len(ivs) >= 1 /\ Len(ivs) <= nops + off
+        /\ Len(ivs) = nops + off
         /\ \A x \in 1..Len(ivs) : BiObservedOK(Built(w0, a.ops, x - off), ivs[x], t)
-        \* the chain is as long as it can be: it only stops early behind an empty interval
-        /\ Len(ivs) < nops + off => ivs[Len(ivs)].f[2] = ivs[Len(ivs)].f[1]
-        /\ \A x \in 1..(Len(ivs) - 1) : ivs[x].f[2] > ivs[x].f[1]
 
+UpperWord(p) == \A i \in 1..Len(p) : p[i] \in {65, 67, 71, 84, 78}
 Explains(cfg, e) ==
     LET c == e.c  r == e.r  t == FmdText(cfg.seqs) IN
     /\ r.st = "ok"
     /\ CASE c.op = "build" -> /\ \A x \in 1..Len(cfg.seqs) : DnaWord(cfg.seqs[x]) /\ Len(cfg.seqs[x]) >= 1
+                              /\ cfg.tab \in {0, 1, 2} /\ (cfg.tab # 0 => \A x \in 1..Len(cfg.seqs) : UpperWord(cfg.seqs[x]))
                               /\ r.text = t
          [] c.op = "smems" ->
               LET p == c.a.p  l == c.a.l  M == MemSet(p, t) IN
-              /\ Len(p) >= 1 /\ DnaWord(p) /\ l >= 1
+              /\ Len(p) >= 1 /\ DnaWord(p) /\ l >= 1 /\ (cfg.tab # 0 => UpperWord(p))
               /\ Len(r.res) = Len(p)
               /\ \A i \in 0..(Len(p) - 1) : SmemsOKin(M, p, i, l, r.res[i + 1], t)
          [] c.op = "all_smems" ->
               LET p == c.a.p  l == c.a.l IN
-              /\ Len(p) >= 1 /\ DnaWord(p) /\ l >= 1
+              /\ Len(p) >= 1 /\ DnaWord(p) /\ l >= 1 /\ (cfg.tab # 0 => UpperWord(p))
               /\ AllSmemsOKin(MemSet(p, t), p, l, r.ms, t)
-         [] c.op = "ext_path" -> ExtPathOK(c.a, r.ivs, t)
+         [] c.op = "ext_path" ->
+              /\ cfg.tab # 0 => (c.a.start \in {-1, 65, 67, 71, 84, 78} /\ \A j \in 1..Len(c.a.ops) : UpperWord(<<c.a.ops[j][2]>>))
+              /\ ExtPathOK(c.a, r.ivs, t)
          [] OTHER -> FALSE
 
 Init == run \in 1..Len(Rec) /\ idx = 0 /\ ok = TRUE
